@@ -232,6 +232,11 @@ pub struct Layout {
     /// visibility of the struct: 0 `pub`, 1 `pub(crate)`, 2 `pub(super)`
     #[serde(default)]
     pub vis: u8,
+    /// != 0: between the auxiliary types and the struct, a sibling module declares types with the *same names*
+    /// (E0, I0, ...) but other widths. They are never used; a macro that keeps state between invocations keyed
+    /// by bare type name would mix them up.
+    #[serde(default)]
+    pub decoys: u8,
 }
 
 pub fn is_native_width(bits: u32) -> bool {
